@@ -329,7 +329,7 @@ def run(run, tier, loadcfg):
     run.rule_text = 'one instance per (function x rule x configuration)'
     run.explanation = __doc__
     run.assumptions = ['floating-point rounding ignored in the Hann identity; Hann range/symmetry follow from the formula (paper)']
-    for cfg in ['std-debug'] + (['nostd'] if tier == 'thorough' else []):
+    for cfg in ['std-debug'] + (['nostd', 'std-release'] if tier == 'thorough' else []):
         fx_ = loadcfg(cfg, optional=(cfg == 'nostd'))
         if fx_ is None:
             continue
